@@ -32,6 +32,7 @@ from .common import Ctx, Disagreement, Result, Violation, load_corpus, run_model
 # argument tuples; 1 == 1.0 and hash(1) == hash(1.0), so they are equal arguments unless typed
 ARGS: list[tuple[tuple, dict]] = [
     ((1,), {}), ((2,), {}), ((3,), {}), ((1.0,), {}), ((2.0,), {}), ((), {"x": 1}),
+    ((), {"x": 1.0}), ((), {"x": True}),
 ]
 
 
@@ -39,6 +40,8 @@ def canon(a: int, typed: bool) -> int:
     """canonical key of ARGS[a]: equal arguments <-> equal canonical key"""
     if not typed and a in (3, 4):
         return a - 3
+    if not typed and a in (6, 7):  # x=1.0 and x=True are equal to x=1 unless typed
+        return 5
     return a
 
 
